@@ -1524,7 +1524,9 @@ class BaseImage(metaclass=ImageMeta):
                 if pixel_data:
                     a = list(img.getdata(3))
                     if round_alpha:
-                        alpha = round(alpha * 255)
+                        # A pixel is opaque only if its alpha ratio is not below the
+                        # threshold; rounding down would include the level just below it
+                        alpha = ceil(alpha * 255)
                         a = [0 if val < alpha else 255 for val in a]
                 if round_alpha:
                     bg = Image.new(
